@@ -39,10 +39,27 @@ func mutatePermissions(fsys apkfs.FullFS, o *options.Options, mut types.PathMuta
 	return mutatePermissionsDirect(fsys, mut.Path, mut.Permissions, mut.UID, mut.GID)
 }
 
+// permissionsToFileMode converts Unix permission bits as written in the image
+// configuration (e.g. 0o4755, 0o1777) to an fs.FileMode: the nine permission bits
+// keep their place, set-user-ID, set-group-ID and sticky are separate mode bits there.
+func permissionsToFileMode(perms uint32) fs.FileMode {
+	mode := fs.FileMode(perms & 0o777)
+	if perms&0o4000 != 0 {
+		mode |= fs.ModeSetuid
+	}
+	if perms&0o2000 != 0 {
+		mode |= fs.ModeSetgid
+	}
+	if perms&0o1000 != 0 {
+		mode |= fs.ModeSticky
+	}
+	return mode
+}
+
 func mutatePermissionsDirect(fsys apkfs.FullFS, path string, perms, uid, gid uint32) error {
 	target := path
 
-	if err := fsys.Chmod(target, fs.FileMode(perms)); err != nil {
+	if err := fsys.Chmod(target, permissionsToFileMode(perms)); err != nil {
 		return fmt.Errorf("chmod %q: %w", target, err)
 	}
 	if err := fsys.Chown(target, int(uid), int(gid)); err != nil {
@@ -52,7 +69,7 @@ func mutatePermissionsDirect(fsys apkfs.FullFS, path string, perms, uid, gid uin
 }
 
 func mutateDirectory(fsys apkfs.FullFS, o *options.Options, mut types.PathMutation) error {
-	perms := fs.FileMode(mut.Permissions)
+	perms := permissionsToFileMode(mut.Permissions)
 
 	if err := fsys.MkdirAll(mut.Path, perms); err != nil {
 		return err
